@@ -19,10 +19,13 @@ package tracing
 
 import (
 	"io"
+	"sync"
 	"time"
 
 	"github.com/megaease/easegress/pkg/util/fasttime"
 	zipkingo "github.com/openzipkin/zipkin-go"
+	"github.com/openzipkin/zipkin-go/model"
+	zipkinreporter "github.com/openzipkin/zipkin-go/reporter"
 	zipkingohttp "github.com/openzipkin/zipkin-go/reporter/http"
 )
 
@@ -74,6 +77,30 @@ func init() {
 	NoopSpan = &span{tracer: NoopTracer, Span: NoopTracer.tracer.StartSpan("")}
 }
 
+// closableReporter drops spans that are finished after Close. The zipkin HTTP
+// reporter's Send blocks forever once Close has stopped its loop, but a request
+// that started before a hot update closed the tracer finishes its spans later.
+type closableReporter struct {
+	zipkinreporter.Reporter
+	mu     sync.RWMutex
+	closed bool
+}
+
+func (r *closableReporter) Send(s model.SpanModel) {
+	r.mu.RLock()
+	defer r.mu.RUnlock()
+	if !r.closed {
+		r.Reporter.Send(s)
+	}
+}
+
+func (r *closableReporter) Close() error {
+	r.mu.Lock()
+	r.closed = true
+	r.mu.Unlock()
+	return r.Reporter.Close()
+}
+
 // New creates a Tracing.
 func New(spec *Spec) (*Tracer, error) {
 	if spec == nil {
@@ -90,7 +117,7 @@ func New(spec *Spec) (*Tracer, error) {
 		return nil, err
 	}
 
-	reporter := zipkingohttp.NewReporter(spec.Zipkin.ServerURL)
+	reporter := &closableReporter{Reporter: zipkingohttp.NewReporter(spec.Zipkin.ServerURL)}
 
 	tracer, err := zipkingo.NewTracer(
 		reporter,
